@@ -65,7 +65,9 @@ func TestC05_Shield(t *testing.T) {
 			"ResponseCodeRatio(500, 600, 0, 600) >= 0.7",
 		}).Draw(t, "expr")
 		phase := time.Duration(rapid.Int64Range(0, int64(time.Second)-1).Draw(t, "phase"))
+		cbh.UseFormatLogger = rapid.IntRange(0, 2).Draw(t, "formattingLogger") == 0
 		d := cbh.New(t, expr, F, R, P, phase)
+		cbh.UseFormatLogger = false
 		defer d.Close()
 
 		prev := d.State()
@@ -110,7 +112,14 @@ func TestC05_Shield(t *testing.T) {
 		start := func() {
 			wasStandby := prev == "standby"
 			inShield := shieldUntil >= 0 && prev == "tripped" && d.Now < shieldUntil
-			passed := d.Start()
+			var hdr []string
+			switch rapid.IntRange(0, 5).Draw(t, "reqKind") {
+			case 0: // a protocol-switch request is a request like any other for the breaker
+				hdr = []string{"Connection", "keep-alive, Upgrade", "Upgrade", "websocket"}
+			case 1:
+				hdr = []string{"Connection", "close", "X-Anything", "1"}
+			}
+			passed := d.Start(hdr...)
 			if inShield {
 				if d.Now != shieldFrom {
 					arrivalsInShield++
@@ -324,7 +333,14 @@ func TestC05_Stress(t *testing.T) {
 				mu.Unlock()
 			}(w)
 		}
-		wg.Wait()
+		finished := make(chan struct{})
+		go func() { wg.Wait(); close(finished) }()
+		select {
+		case <-finished:
+		case <-time.After(60 * time.Second):
+			close(stop)
+			t.Fatalf("%d workers x %d requests against the breaker did not finish within 60 s of real time: some request is never answered (deadlock inside the breaker)", workers, perWorker)
+		}
 		close(stop)
 		<-clockDone
 		lg.mu.Lock()
